@@ -35,11 +35,12 @@ fn shape(inp: &[u8], from: usize, w: usize) -> (usize, usize, i64) {
 
 fn two_digit_fields(inp: &[u8]) {
     let which: u8 = kani::any();
-    kani::assume(which < 7);
+    kani::assume(which < 8);
     let mut tm = BrokenDownTime::default();
     let (r, rest, fl) = {
         let mut p = Parser { fmt: b"x", inp, tm: &mut tm };
         let r = match which {
+            7 => p.parse_iso_week_year2(NOEXT),
             0 => p.parse_month(NOEXT),
             1 => p.parse_day(NOEXT),
             2 => p.parse_hour24(NOEXT),
@@ -51,7 +52,7 @@ fn two_digit_fields(inp: &[u8]) {
         (r, p.inp.len(), p.fmt.len())
     };
     let (ws, k, v) = shape(inp, 0, 2);
-    let (lo, hi) = match which { 0 => (1, 12), 1 => (1, 31), 2 => (0, 23), 3 => (0, 59), 4 => (0, 60), 5 => (0, 99), _ => (1, 12) };
+    let (lo, hi) = match which { 0 => (1, 12), 1 => (1, 31), 2 => (0, 23), 3 => (0, 59), 4 => (0, 60), 5 | 7 => (0, 99), _ => (1, 12) };
     let ok = k >= 1 && lo <= v && v <= hi;
     assert!(r.is_ok() == ok);
     let got: Option<i64> = match which {
@@ -60,11 +61,12 @@ fn two_digit_fields(inp: &[u8]) {
         2 | 6 => tm.hour.map(|x| x.get() as i64),
         3 => tm.minute.map(|x| x.get() as i64),
         4 => tm.second.map(|x| x.get() as i64),
+        7 => tm.iso_week_year.map(|x| x.get() as i64),
         _ => tm.year.map(|x| x.get() as i64),
     };
     if ok {
         assert!(rest == inp.len() - ws - k && fl == 0);
-        let want = match which { 4 => if v == 60 { 59 } else { v }, 5 => if v <= 68 { 2000 + v } else { 1900 + v }, _ => v };
+        let want = match which { 4 => if v == 60 { 59 } else { v }, 5 | 7 => if v <= 68 { 2000 + v } else { 1900 + v }, _ => v };
         assert!(got == Some(want));
         kani::cover!(which == 5 && v == 69);
         kani::cover!(which == 4 && v == 60);
@@ -74,11 +76,11 @@ fn two_digit_fields(inp: &[u8]) {
 }
 
 //@harness c16_parse_two_digit_fields
-//@target fmt::strtime::parse::Parser::{parse_month,parse_day,parse_hour24,parse_minute,parse_second,parse_year2,parse_hour12} + Extension::parse_number (%m %d/%e %H/%k %M %S %y %I/%l) (src/fmt/strtime/parse.rs)
-//@prop C16
+//@target fmt::strtime::parse::Parser::{parse_month,parse_day,parse_hour24,parse_minute,parse_second,parse_year2,parse_iso_week_year2,parse_hour12} + Extension::parse_number (%m %d/%e %H/%k %M %S %y %g %I/%l) (src/fmt/strtime/parse.rs)
+//@prop C16 C17
 //@tier quick
 //@timeout 900
-//@doc every input that does not start with whitespace (window: every byte string of 0..=3 bytes = 2 digits + 1 look-ahead byte): total (Ok or Err, no panic); Ok <=> the input starts with 1 or 2 ASCII digits (at most 2 are taken) whose value lies in the field's range (month 1..=12, day 1..=31, hour 0..=23, minute 0..=59, second 0..=60, 2-digit year 0..=99, 12-hour 1..=12); then exactly those digits are consumed, the directive is consumed, and the field is the decoded value -- except second 60 is stored as 59 (documented: no leap seconds) and the 2-digit year is 2000 + v for v <= 68, 1900 + v otherwise (POSIX pivot); on Err the field stays unset.  Inversion: fmt_month/day_zero/hour24_zero/minute/second/year2/hour12_zero emit exactly 2 digits whose value is the field (c16_fmt_clock_fields, c16_fmt_date_fields), which this contract maps back to the same field value (the year for 1969..=2068, the only years %y formats); %e/%k/%l emit a space and a digit for values below 10, which the whitespace skip accepts (c16_parse_two_digit_fields_ws)
+//@doc every input that does not start with whitespace (window: every byte string of 0..=3 bytes = 2 digits + 1 look-ahead byte): total (Ok or Err, no panic); Ok <=> the input starts with 1 or 2 ASCII digits (at most 2 are taken) whose value lies in the field's range (month 1..=12, day 1..=31, hour 0..=23, minute 0..=59, second 0..=60, 2-digit year 0..=99, 12-hour 1..=12); then exactly those digits are consumed, the directive is consumed, and the field is the decoded value -- except second 60 is stored as 59 (documented: no leap seconds) and the 2-digit year (%y, and likewise the 2-digit ISO week-based year %g) is 2000 + v for v <= 68, 1900 + v otherwise (POSIX pivot); on Err the field stays unset.  Inversion: fmt_month/day_zero/hour24_zero/minute/second/year2/hour12_zero emit exactly 2 digits whose value is the field (c16_fmt_clock_fields, c16_fmt_date_fields), which this contract maps back to the same field value (the year for 1969..=2068, the only years %y formats); %e/%k/%l emit a space and a digit for values below 10, which the whitespace skip accepts (c16_parse_two_digit_fields_ws)
 #[kani::proof]
 #[kani::unwind(6)]
 fn c16_parse_two_digit_fields() {
@@ -92,7 +94,7 @@ fn c16_parse_two_digit_fields() {
 
 //@harness c16_parse_two_digit_fields_ws
 //@target fmt::strtime::parse::Parser::{parse_month,parse_day,parse_hour24,parse_minute,parse_second,parse_year2,parse_hour12} + Extension::parse_number with leading whitespace (src/fmt/strtime/parse.rs)
-//@prop C16
+//@prop C16 C17
 //@tier quick
 //@timeout 900
 //@bounded every byte string of 0..=6 bytes (so up to 3 leading whitespace bytes before a full 2-digit window; all-whitespace inputs included)
@@ -140,7 +142,7 @@ fn signed_or_wide_fields(inp: &[u8]) {
 
 //@harness c16_parse_year_and_ordinal
 //@target fmt::strtime::parse::Parser::{parse_year,parse_iso_week_year,parse_day_of_year} + parse_optional_sign + Extension::parse_number (%Y %G %j) (src/fmt/strtime/parse.rs)
-//@prop C16
+//@prop C16 C17
 //@tier quick
 //@timeout 900
 //@doc every input with no whitespace at the front resp. directly after the sign (window: every byte string of 0..=6 bytes = sign + 4 digits + 1 look-ahead byte): total; %Y and %G: Ok <=> an optional '+' or '-' is followed by 1..=4 ASCII digits (at most 4 are taken); the value is sign * digits, always inside -9999..=9999 ("-0" is year 0); %j: Ok <=> 1..=3 digits with value 1..=366 (no sign); exactly sign + digits are consumed; on Err the field stays unset.  Inversion: fmt_year / fmt_iso_week_year emit ['-'] + exactly 4 zero padded digits of |year| (c16_fmt_date_fields, c16_fmt_iso_week) and fmt_day_of_year exactly 3 digits (c16_numeric_calendar_facts), which this contract maps back to the same year / ordinal day
@@ -159,7 +161,7 @@ fn c16_parse_year_and_ordinal() {
 
 //@harness c16_parse_year_and_ordinal_ws
 //@target fmt::strtime::parse::Parser::{parse_year,parse_iso_week_year,parse_day_of_year} with whitespace (src/fmt/strtime/parse.rs)
-//@prop C16
+//@prop C16 C17
 //@tier quick
 //@timeout 900
 //@bounded every byte string of 0..=8 bytes (up to 3 whitespace bytes in front of, or between the sign and, a full 4-digit window)
@@ -175,7 +177,7 @@ fn c16_parse_year_and_ordinal_ws() {
 
 //@harness c16_parse_ampm
 //@target fmt::strtime::parse::Parser::parse_ampm + parse_ampm (%p %P) (src/fmt/strtime/parse.rs)
-//@prop C16
+//@prop C16 C17
 //@tier quick
 //@timeout 300
 //@doc every input (window: every byte string of 0..=3 bytes; no whitespace skipping here): total; Ok <=> at least 2 bytes and the first two are "am" or "pm" in any ASCII case mix; then exactly 2 bytes are consumed and the meridiem is AM resp. PM; on Err it stays unset.  Inversion: %p/%P emit "AM"/"am" for hours 0..=11 and "PM"/"pm" for 12..=23 (c16_fmt_ampm), accepted here with that meridiem; together with %I (c16_parse_two_digit_fields) BrokenDownTime::hour_ranged gives back the original hour (also proved in c16_fmt_ampm)
@@ -230,7 +232,7 @@ fn ref_offset(inp: &[u8], colon: bool) -> Option<(i32, usize)> {
 
 //@harness c16_parse_offset
 //@target fmt::strtime::parse::Parser::{parse_offset_nocolon,parse_offset_colon} + parse_required_sign (%z %:z) (src/fmt/strtime/parse.rs)
-//@prop C16 C09
+//@prop C16 C17 C09
 //@tier quick
 //@timeout 900
 //@doc every input (window: every byte string of 0..=11 bytes = sign + "HH:MM:SS" + "." look-ahead + 1; no whitespace skipping): total; %z: Ok <=> '+'/'-' followed by 4 digits HHMM with HH <= 25 and MM <= 59, optionally followed by 2 more digits SS <= 59 that are not followed by '.' (two digits after MM are ALWAYS taken as seconds; SS > 59 or a following '.' is Err, not a shorter match); %:z likewise with "HH:MM" and optional ":SS"; the offset is sign * (HH*3600 + MM*60 + SS), inside -93599..=93599, and exactly those bytes are consumed.  Inversion: write_offset (c16_write_offset) emits sign, HH, [:]MM and [:]SS iff the seconds are non-zero, with HH*3600+MM*60+SS == |offset| and '-' exactly for negative offsets, which this contract maps back to the same offset (provided the text is not directly followed by two digits / ":dd" or '.')
@@ -269,7 +271,7 @@ fn any_flag() -> Option<Flag> {
 
 //@harness c16_parse_number_extension
 //@target fmt::strtime::parse::Extension::parse_number (flag and width extensions when parsing) (src/fmt/strtime/parse.rs)
-//@prop C16
+//@prop C16 C17
 //@tier quick
 //@timeout 900
 //@bounded explicit widths 0..=8 (or absent), default widths 1..=4, inputs of 0..=10 bytes without leading whitespace
